@@ -422,24 +422,24 @@ theorem onePlyIfChecked_of_not_inCheck (g : Game P) (p : P) (a b : Score) (st : 
     caller's window and state; a halted search gives `(0 nodes, InvalidScore)`. -/
 theorem onePlyIfChecked_of_inCheck (g : Game P) (p : P) (a b : Score) (st : SState) (h : g.inCheck p = true) :
     onePlyIfChecked g p a b st =
-      match alphaBetaSearch g fullExploration .static p 1 a b st with
+      match alphaBetaSearch g (constEx fullExploration) .static p 1 a b st with
       | (none, st') => (invalidScore, { st' with nodes := st.nodes })
       | (some r, st') => (r.score, { st' with nodes := st.nodes + r.nodes }) := by
   simp only [onePlyIfChecked, h, Bool.not_true, Bool.false_eq_true, if_false]
-  rcases alphaBetaSearch g fullExploration .static p 1 a b st with ⟨_ | r, st'⟩ <;> rfl
+  rcases alphaBetaSearch g (constEx fullExploration) .static p 1 a b st with ⟨_ | r, st'⟩ <;> rfl
 
 /-- … and, one level further down, the score is that of `runAlphaBeta.search` (`Model.alphabeta`) at depth 1 on the window
     `[a or −∞, b or +∞]`, unless the final poll reports cancellation. -/
 theorem onePlyIfChecked_score (g : Game P) (p : P) (a b : Score) (st : SState) (h : g.inCheck p = true) :
     (onePlyIfChecked g p a b st).1 =
-      if (poll (alphabeta g fullExploration .static (g.ply p) 1 p (if a.isInvalid then negInfScore else a)
+      if (poll (alphabeta g (constEx fullExploration) .static (g.ply p) 1 p (if a.isInvalid then negInfScore else a)
             (if b.isInvalid then infScore else b) { st with nodes := 0 }).2.2).1
       then invalidScore
-      else (alphabeta g fullExploration .static (g.ply p) 1 p (if a.isInvalid then negInfScore else a)
+      else (alphabeta g (constEx fullExploration) .static (g.ply p) 1 p (if a.isInvalid then negInfScore else a)
             (if b.isInvalid then infScore else b) { st with nodes := 0 }).1 := by
   rw [onePlyIfChecked_of_inCheck g p a b st h]
   simp only [alphaBetaSearch]
-  cases hc : (poll (alphabeta g fullExploration .static (g.ply p) 1 p (if a.isInvalid then negInfScore else a)
+  cases hc : (poll (alphabeta g (constEx fullExploration) .static (g.ply p) 1 p (if a.isInvalid then negInfScore else a)
       (if b.isInvalid then infScore else b) { st with nodes := 0 }).2.2).1 <;> simp_all
 
 /-- **C13 applies.** In check, without table and without cancellation, for a proper window of valid scores of grade 1:
@@ -450,14 +450,14 @@ theorem onePlyIfChecked_clip (g : Game P) (hev : EvalOk g) (p : P) (a b : Score)
     (ha : okN 1 (if a.isInvalid then negInfScore else a)) (hb : okN 1 (if b.isInvalid then infScore else b))
     (hab : rank (if a.isInvalid then negInfScore else a) < rank (if b.isInvalid then infScore else b)) :
     Clip (rank (if a.isInvalid then negInfScore else a)) (rank (if b.isInvalid then infScore else b))
-      (rank (V g fullExploration .static (g.ply p) 1 p)) (rank (onePlyIfChecked g p a b st).1) := by
+      (rank (V g (constEx fullExploration) .static (g.ply p) 1 p)) (rank (onePlyIfChecked g p a b st).1) := by
   have hst : ({ st with nodes := 0 } : SState).tt.slots.size = 0 ∧ ({ st with nodes := 0 } : SState).cancelAt = none := ⟨htt, hc⟩
-  have hany := Props.C13.alphabeta_any_window g fullExploration .static (g.ply p) hev 0 1 (Nat.le_refl _) (by decide) p _ _
+  have hany := Props.C13.alphabeta_any_window g (constEx fullExploration) .static (g.ply p) hev 0 1 (Nat.le_refl _) (by decide) p _ _
     { st with nodes := 0 } hst.1 hst.2 (by simpa using ha) (by simpa using hb)
-  have hclip := Props.C13.alphabeta_clip g fullExploration .static (g.ply p) hev 0 1 (Nat.le_refl _) (by decide) p _ _
+  have hclip := Props.C13.alphabeta_clip g (constEx fullExploration) .static (g.ply p) hev 0 1 (Nat.le_refl _) (by decide) p _ _
     { st with nodes := 0 } hst.1 hst.2 (by simpa using ha) (by simpa using hb) hab
   rw [onePlyIfChecked_score g p a b st h]
-  have hpoll : (poll (alphabeta g fullExploration .static (g.ply p) 1 p (if a.isInvalid then negInfScore else a)
+  have hpoll : (poll (alphabeta g (constEx fullExploration) .static (g.ply p) 1 p (if a.isInvalid then negInfScore else a)
       (if b.isInvalid then infScore else b) { st with nodes := 0 }).2.2).1 = false := by
     simp [poll, hany.2.2.2.2.2]
   rw [hpoll]
